@@ -669,6 +669,84 @@ def config_route(ctx, cfg):
             gate_tie(ctx, f"config({cls.__name__}.{name})", q, dq, cfg, units)
 
 
+def arith_tie(ctx, d, p, units):
+    """IEEE arithmetic on doubles as data (AFModel/DblArith.lean) against the real floats: the four operations on
+    sampled pairs, and the arithmetic of the transform stacks around the special functions -
+    `1 - 2.0 * (1.0 - u)`, `mean + (sigma * sqrt(2) * inv)`, `t * (U - L) + L` - against the prior's own
+    `message.value_for`, given scipy's intermediate values (`erfinv`, `ndtr` called the way the code calls
+    them). Bit-exact on the unchanged code; a difference of a few ulp of the operands (a re-association of
+    the arithmetic) is counted but is not a disagreement."""
+    import autofit.messages.normal as _normal
+    import autofit.messages.transform as _transform
+    rng = ctx.rng
+    k = d["kind"]
+    us = rng.sample(units, min(4, len(units)))
+    rows, expect = [], []
+    f64 = np.float64
+
+    def add_row(op, a, b=0.0, c=0.0, want=None, scale=0.0, what=None):
+        rows.append([op, f2h(a), f2h(b), f2h(c)])
+        expect.append((what or op, (a, b, c), want, scale))
+
+    pool = [d["lo"], d["hi"], d.get("mean", 0.0), d.get("sigma", 1.0), 0.0, -0.0, 1.0, 2.0, INF, -INF, math.nan,
+            5e-324, -5e-324, 1.7976931348623157e308, 2.2250738585072014e-308] + us + \
+           [rng.uniform(-1, 1) * 10.0 ** rng.randint(-320, 308) for _ in range(4)]
+    with np.errstate(all="ignore"):
+        for _ in range(8):
+            a, b = rng.choice(pool), rng.choice(pool)
+            if rng.random() < 0.3:
+                b = a * rng.choice([1.0, -1.0, 1 + 2.0 ** -52, 0.5, 3.0])
+            op = rng.choice(["add", "sub", "mul", "div"])
+            want = {"add": f64(a) + f64(b), "sub": f64(a) - f64(b), "mul": f64(a) * f64(b),
+                    "div": f64(a) / f64(b)}[op]
+            add_row(op, a, b, want=float(want))
+        for u in us:
+            arg = 1 - 2.0 * (1.0 - u)
+            add_row("argd", u, want=arg)
+            try:
+                inv = float(_normal.erfinv(arg))
+            except Exception:  # noqa
+                continue
+            real = call(p.message.value_for, u)
+            if isinstance(real, str):
+                continue
+            if k in "GN" and math.isfinite(d["mean"]) and d["sigma"] > 0:
+                tag = "message.value_for = rawGaussianD(erfinv)" if k == "G" else "message.value_for = exp(rawGaussianD(erfinv))"
+                add_row("rawg", d["mean"], d["sigma"], inv, want=real,
+                        scale=max(abs(d["mean"]), abs(d["sigma"] * 1.5 * inv) if math.isfinite(inv) else 0.0), what=tag)
+            elif k == "U":
+                z = float(0.0 + (1.0 * np.sqrt(2) * inv))
+                add_row("rawg", 0.0, 1.0, inv, want=z, scale=abs(z) if math.isfinite(z) else 0.0,
+                        what="NormalMessage(0,1).value_for = rawGaussianD")
+                t = float(_transform.ndtr(z))
+                add_row("rawu", t, d["lo"], d["hi"], want=real, scale=max(abs(d["lo"]), abs(d["hi"])),
+                        what="message.value_for = rawUniformD(ndtr)")
+    m = ctx.lean.ask({"p": "C02", **wire_prior(d), "us": [], "arith": rows})
+    if "driver_error" in m:
+        ctx.disagree("driver", {"prior": canon_prior(d)}, None, m.get("driver_error"))
+        return
+    for (what, args, want, scale), mh in zip(expect, m["arith"]):
+        got = h2f(mh)
+        slack = 0.0
+        if what.endswith("exp(rawGaussianD(erfinv))"):
+            # exp turns an absolute difference of its argument into a relative one of the value
+            arg_slack = 4 * ulp(max(scale, abs(got))) if math.isfinite(got) else 0.0
+            with np.errstate(all="ignore"):
+                got = float(np.exp(got))
+            slack = abs(want) * arg_slack * 1.01 if math.isfinite(want) else 0.0
+            scale = 0.0
+        if bits_same(got, want) or (got == 0.0 and want == 0.0 and what.startswith("message")):
+            ctx.hit("arith:" + what.split("(")[0].split(" ")[0])
+            continue
+        basic = what in ("add", "sub", "mul", "div", "argd")
+        if not basic and got == got and want == want and math.isfinite(got) and math.isfinite(want) \
+                and abs(got - want) <= 4 * ulp(max(scale, abs(want))) + slack:
+            ctx.hit("arith-reassociated:" + what.split(" ")[0])
+            continue
+        ctx.disagree("doubles as data: " + what, {"prior": canon_prior(d), "args": [num(x) for x in args]},
+                     num(want), num(got))
+
+
 def one_prior(ctx, d, units=None, seeds=None, cfg=None, label="gen", mp_queue=None):
     cfg = cfg or {"repaired": True}
     rng = ctx.rng
@@ -744,6 +822,7 @@ def one_prior(ctx, d, units=None, seeds=None, cfg=None, label="gen", mp_queue=No
             ctx.disagree("value_for(ignore) = finish(message.value_for)", case_u(i), num_or(ign[i]), num_or(fin_ign))
 
     dbl_layer(ctx, d, p, cfg, m, m2, idx, raw, out, ign, case_u)
+    arith_tie(ctx, d, p, units)
     round_tie(ctx, d, p, [raw[i] for i in idx] + [o for o in out if isinstance(o, float)])
 
     # ---- correspondence (tolerance): transform stack on Float
